@@ -39,6 +39,7 @@ type access struct {
 	pos   token.Pos
 	fn    *ssa.Function
 	what  string
+	top   ssa.Instruction // the instruction of the unit's own function under which the access happens
 }
 
 type forkUnit struct {
@@ -46,6 +47,7 @@ type forkUnit struct {
 	fn       *ssa.Function
 	multi    bool
 	accesses []access
+	late     []access // accesses that can happen after the unit's last result send (the parent may be past the join)
 	private  []access // accesses to per-iteration variables: not shared between instances (but still shared with other units)
 }
 
@@ -57,6 +59,8 @@ type forkWalker struct {
 	visited  map[string]bool
 	Unknown  int // dynamic calls that could not be resolved
 	busy     map[*ssa.Call]bool
+	top      ssa.Instruction
+	root     *ssa.Function // the unit's own function (top is tracked while walking it)
 }
 
 var notThreadSafeRecv = []string{"bytes.Buffer", "bufio.Writer", "bufio.Reader", "bufio.Scanner", "os.File", "github.com/jgallagher/gosaca.WorkSpace",
@@ -228,7 +232,7 @@ func (w *forkWalker) record(l aloc, write bool, locks map[string]bool, in ssa.In
 	for k := range locks {
 		lk[k] = true
 	}
-	*w.out = append(*w.out, access{loc: l, write: write, locks: lk, pos: core.InstrPos(in), fn: in.Parent(), what: what})
+	*w.out = append(*w.out, access{loc: l, write: write, locks: lk, pos: core.InstrPos(in), fn: in.Parent(), what: what, top: w.top})
 }
 
 func (w *forkWalker) funcValues(v ssa.Value, e *env) []fval {
@@ -378,6 +382,14 @@ func (w *forkWalker) walk(fn *ssa.Function, e *env, held map[string]bool) {
 					}
 				}
 				continue
+			}
+			if len(w.stack) == 1 {
+				if w.root == nil {
+					w.root = fn
+				}
+				if fn == w.root {
+					w.top = ins
+				}
 			}
 			w.instr(fn, ins, e, cur)
 		}
@@ -622,6 +634,7 @@ type forkSite struct {
 	name   string
 	units  []*forkUnit
 	region []access // the parent's accesses between fork and join
+	post   []access // the parent's accesses after the last join
 	forks  []ssa.Instruction
 }
 
@@ -683,6 +696,7 @@ func findConflicts(s *forkSite) []conflict {
 			cmp(u.name, s.units[j].name, u.accesses, s.units[j].accesses)
 		}
 		cmp(u.name, "parent (between fork and join)", u.accesses, s.region)
+		cmp(u.name+" (after its last result send)", "parent (after the join)", u.late, s.post)
 	}
 	return out
 }
@@ -876,6 +890,87 @@ func analyseForkSite(p *core.Prog, parent *ssa.Function, depth int) (*forkSite, 
 		})
 		unknown += w.Unknown
 		s.region = acc
+		// ---- what a unit does after its last result send is not ordered before the parent's join
+		isUnitSend := func(in ssa.Instruction) bool {
+			sd, ok := in.(*ssa.Send)
+			return ok && isUnitChan(sd.Chan)
+		}
+		anyLate := false
+		for _, u := range s.units {
+			if u.fn == nil {
+				continue
+			}
+			bodySends := allInstrs(u.fn, isUnitSend)
+			var sendDefers []ssa.Instruction
+			core.Instrs(u.fn, func(in ssa.Instruction) {
+				if d, ok := in.(*ssa.Defer); ok {
+					for _, cal := range deferCallees(d) {
+						if firstInstr(cal, isUnitSend) != nil {
+							sendDefers = append(sendDefers, in)
+						}
+					}
+				}
+			})
+			isBodySend := func(in ssa.Instruction) bool {
+				for _, x := range bodySends {
+					if x == in {
+						return true
+					}
+				}
+				return false
+			}
+			for _, a := range u.accesses {
+				if a.top == nil || a.top.Parent() != u.fn {
+					continue
+				}
+				late := false
+				if _, isDef := a.top.(*ssa.Defer); isDef {
+					// deferred work runs at exit: after a send in the body, and after a deferred send that was registered later
+					if len(bodySends) > 0 {
+						late = true
+					}
+					for _, ds := range sendDefers {
+						if a.top != ds && core.FindPath(u.fn, a.top, isInstr(ds), nil) != nil {
+							late = true
+						}
+					}
+				} else {
+					for _, sd := range bodySends {
+						if core.FindPath(u.fn, sd, isInstr(a.top), nil) != nil && core.FindPath(u.fn, a.top, isBodySend, nil) == nil {
+							late = true
+						}
+					}
+				}
+				if late {
+					u.late = append(u.late, a)
+					anyLate = true
+				}
+			}
+		}
+		if anyLate {
+			var post []access
+			w2 := &forkWalker{p: p, maxDepth: depth, out: &post, visited: map[string]bool{}}
+			e2 := newEnv()
+			core.Instrs(parent, func(in ssa.Instruction) {
+				if _, isGo := in.(*ssa.Go); isGo {
+					return
+				}
+				if inRegion(in) {
+					return
+				}
+				afterJoin := false
+				core.Instrs(parent, func(j ssa.Instruction) {
+					if !afterJoin && isJoin(j) && j != in && core.FindPath(parent, j, isInstr(in), nil) != nil {
+						afterJoin = true
+					}
+				})
+				if !afterJoin {
+					return
+				}
+				w2.instr(parent, in, e2, map[string]bool{})
+			})
+			s.post = post
+		}
 		// likewise two instances of a multi-instance unit do not share a variable that is allocated anew between two forks
 		for _, u := range s.units {
 			if !u.multi {
